@@ -197,3 +197,25 @@ PROPS["C14"] = {
         "strings are valid UTF-8 (protobuf string fields); non-UTF-8 strings are C15's finding",
     ],
 }
+
+PROPS["C01"] = {
+    "pkg": "c01", "level": "exploration",
+    "jobs": {
+        "quick": [
+            {"name": "pipeline", "run": "^TestPipelineConservation$", "checks": 1200, "shards": 8},
+            {"name": "pipeline-race", "run": "^TestPipelineConservation$", "checks": 160, "shards": 4, "race": True},
+            {"name": "history", "run": "^TestShardHistory$", "checks": 4000, "shards": 4, "steps": 40},
+        ],
+        "thorough": [
+            {"name": "pipeline", "run": "^TestPipelineConservation$", "checks": 120000, "shards": 8, "timeout": 1700},
+            {"name": "pipeline-race", "run": "^TestPipelineConservation$", "checks": 16000, "shards": 4, "race": True, "timeout": 1700},
+            {"name": "history", "run": "^TestShardHistory$", "checks": 400000, "shards": 4, "steps": 60, "timeout": 1700},
+        ],
+    },
+    "assumptions": [
+        "the Go scheduler is not owned: the concurrent layer samples interleavings (diversified by GOMAXPROCS, queue size 0, feeder/flush concurrency, a Gosched inside the aggregator wrapper); the oracle is schedule independent (totals after a deterministic join)",
+        "expiry intervals are 0 so that no series disappears during a run (C09 covers expiry)",
+        "gauges are excluded from the sum oracle (level semantics; C05/C07 cover them) but must be reported and not invented",
+        "UDP socket reads are not part of this harness (datagram batches are written to the parser input channel, as the property's observation point says)",
+    ],
+}
